@@ -197,15 +197,20 @@ func (u *unpacker) read(sz uint64, x interface{}) bool {
 }
 
 func (u *unpacker) readStr(n int) (ok bool) {
+	// The length may come from the packed data (option 's') so it cannot be
+	// trusted: check there is enough data left before allocating anything.  A
+	// negative value comes from the conversion of a length that doesn't fit an
+	// int.
+	if n < 0 || n > len(u.pack)-u.j {
+		u.err = errUnexpectedPackEnd
+		return false
+	}
 	if !u.consumeBudget(uint64(n)) {
 		return false
 	}
-	b := make([]byte, n)
-	ok = u.read(0, b)
-	if ok {
-		u.strVal = string(b)
-	}
-	return
+	u.strVal = string(u.pack[u.j : u.j+n])
+	u.j += n
+	return true
 }
 
 func (u *unpacker) readVarUint() (ok bool) {
